@@ -4,3 +4,6 @@ cd "$(dirname "$0")/../pkg/backends" || exit 1
 for p in influxdb datadog newrelic; do
   sed "s/^package PKG/package $p/" ../../backends/c16http.go.tmpl > $p/zz_verif_c16http.go
 done
+for p in statsdaemon graphite; do
+  sed "s/^package PKG/package $p/" ../../backends/c16sock.go.tmpl > $p/zz_verif_c16sock.go
+done
